@@ -20,7 +20,7 @@ while IFS= read -r f; do
   base=$(basename "$f")
   rel="${f#$D/demo/}"
   # 1. "file -> path" lines  2. any repository-relative path ending in the file name  3. the relative path inside demo/  4. repository root
-  dst=$(grep -E "^\s*\S*$base\s+->\s+\S+" "$README" 2>/dev/null | head -1 | sed -E 's/.*->\s+(\S+).*/\1/')
+  dst=$(grep -E "^\s*\S*$base\s+->\s+\S+" "$README" 2>/dev/null | head -1 | sed -E 's/.*->//' | grep -oE "[^ ]*$base" | tail -1)
   if [ -z "$dst" ]; then dst=$(grep -oE "[A-Za-z0-9_./-]+/$base" "$README" 2>/dev/null | grep -v "^/tmp" | sed -E 's#^(\./)?demo/##' | grep "/" | head -1); fi
   if [ -z "$dst" ] && [ "$rel" != "$base" ]; then
     # a directory inside demo/: the README names where that directory goes
